@@ -546,6 +546,83 @@ def rule_flush(ctx):
         got = [v for _e, v in snaps]
         ctx.check("C04.flush", got == [("ext", "FRAME1", []), ("ext", "FRAME2", [])] and state["queued"] == 0, wf, "decrypt and deliver per segment, in order",
                   "each drained segment must be decrypted by the protocol and delivered (delivered %s, %d left queued)" % ([show(v)[:12] if v else None for v in got], state["queued"]), "decrypt and deliver per segment")
+    # a frame arriving on another thread at the moment a flush is finishing: the running flusher has just seen the queue
+    # empty (and is about to release the lock / clear its marker) when the other thread enqueues a frame and flushes.
+    # That thread has to wait for the lock (and drain afterwards) or drain itself; returning at once because "a flush is
+    # running" leaves the frame in the queue until the next one arrives.
+    st2 = {"queued": 1, "n": 0, "thread": "A", "injected": False, "b": None}
+    box = {}
+
+    class _Blocked(Exception):
+        pass
+
+    def thread_(itp, recv, a, k, env, d, e):
+        t = Obj(None)
+        t.fields["ident"] = ("c", 4242 if st2["thread"] == "A" else 4343)
+        t.fields["name"] = ("c", st2["thread"])
+        return ("obj", t)
+
+    def arrive(itp):
+        st2["injected"] = True
+        st2["queued"] += 1
+        st2["thread"] = "B"
+        try:
+            itp.method_call(box["layer"], roles["flush"], [], {}, {"@module": cls.module, "@owner": cls}, 0, None)
+            st2["b"] = "returned"
+        except _Blocked:
+            st2["b"] = "blocked"
+        finally:
+            st2["thread"] = "A"
+
+    def qsize2(itp, recv, a, k, env, d, e):
+        if st2["thread"] == "A" and st2["queued"] == 0 and not st2["injected"]:
+            arrive(itp)
+            return ("c", 0)
+        return ("c", st2["queued"])
+
+    def empty2(itp, recv, a, k, env, d, e):
+        r = qsize2(itp, recv, a, k, env, d, e)
+        return ("c", r[1] == 0)
+
+    def receive2(itp, recv, a, k, env, d, e):
+        st2["queued"] -= 1
+        st2["n"] += 1
+        return ("ext", "FRAME%d" % st2["n"], [])
+
+    def acquire2(itp, recv, a, k, env, d, e):
+        blocking = not ((a and a[0] == ("c", False)) or k.get("blocking") == ("c", False) or len(a) > 1 or "timeout" in k)
+        if st2["thread"] == "B" and recv is box.get("lock") and blocking and _c11.lock_balance(list(flat_effects(itp.effects)), recv) > 0:
+            raise _Blocked()
+        return None
+
+    def enter2(itp, v):
+        if st2["thread"] == "B" and v is box.get("lock") and _c11.lock_balance(list(flat_effects(itp.effects)), v) > 0:
+            raise _Blocked()
+    hooks2 = {"ext:inq.qsize": qsize2, "ext:inq.empty": empty2, "method:receive": receive2, "ext:*.acquire": acquire2, "with:enter": enter2,
+              "ext:*.current_thread": thread_, "ext:*.currentThread": thread_,
+              "ext:*.get_ident": lambda itp, recv, a, k, env, d, e: ("c", 4242 if st2["thread"] == "A" else 4343)}
+    it2, layer2, _c2 = _noise_layer(repo, roles, extra_hooks=hooks2)
+    del it2.hooks["fn:" + roles["flush"]]
+    it2.loop_unroll = 5
+    box["layer"] = layer2
+    box["lock"] = layer2[1].fields.get(roles["lock"])
+    res2 = None
+    try:
+        it2.method_call(layer2, roles["flush"], [], {}, {"@module": cls.module, "@owner": cls}, 0, None)
+        res2 = "done"
+    except _Raise as r:
+        res2 = "raised " + str(r.text)[:60]
+    except NeedAtom as x:
+        res2 = None if (x.atom[0] == "F" and x.atom[1].startswith("trylock(")) else "undecided %s" % (x.atom,)
+    if res2 is None:
+        pass        # a try-lock: already reported above
+    elif res2.startswith("undecided") or not st2["injected"] or box["lock"] is None:
+        ctx.undecided("C04.flush", wf, "a frame arrives while a flush is finishing", "scenario not executed (%s)" % (res2 if st2["injected"] else "the running flusher never saw the queue empty"))
+    else:
+        lost = st2["b"] == "returned" and st2["queued"] > 0
+        ctx.check("C04.flush", not lost and res2 == "done", wf, "a frame arrives while a flush is finishing",
+                  "the running flusher has seen the queue empty and is about to finish when another thread enqueues a frame and flushes: that flush returns at once (%s) without waiting for the lock, the frame stays in the queue until the next one arrives - frames are held back" % ("a flush is marked running" if lost else res2),
+                  "the arriving thread %s" % ("waits for the lock and drains afterwards" if st2["b"] == "blocked" else "drains the queue itself"))
     # both flush sites use the same function
     sites = []
     for name, f in cls.methods.items():
